@@ -444,8 +444,11 @@ def labeldom(ctx: Any) -> List[Ob]:
     for st in walk_local_ordered(rb.node):
         if isinstance(st, ast.Assign) and isinstance(st.targets[0], ast.Name) and isinstance(st.value, ast.Subscript) and not isinstance(st.value.slice, ast.Slice):
             byte_locals[st.targets[0].id] = st.value
-    adv = [st for st in walk_local_ordered(rb.node) if isinstance(st, ast.AugAssign) and self_attr(st.target, rb.params[0]) == 'offset']
-    length_l = next((n for n in byte_locals if adv and any(isinstance(x, ast.Name) and x.id == n for x in ast.walk(adv[0].value))), None)
+    from .c01 import bitmap_block
+
+    length_l = bitmap_block(ctx)[0]  # the byte read at cursor + 1, whatever the locals are called
+    if length_l not in byte_locals:
+        length_l = None
     if length_l is None:
         raise AnalysisError('anchor vanished: the block-length byte of the NSEC bitmap reader')
     domains = {n: ([1, 2, 16, 31, 32] if n == length_l else [0, 1, 255]) for n in byte_locals}
